@@ -130,6 +130,16 @@ DESC = {
 "C15k": "RefResolver.from_schema's explicit signature forgets to forward cache_remote", "C16k": "create() keeps the caller's keyword table and metaschema mappings instead of copying them",
 "C17k": "childless ErrorTree nodes share one class-level children mapping (written through __setitem__)", "C18k": "resolve_remote writes the retrieval URL into the fetched document as its $id",
 "C19k": "--error-format gets a type= callable that trial-formats against a blank error", "C20k": "validate() builds the validator before it checks the schema",
+"C01l": "iter_errors skips push_scope for an id that starts with '#' but still pops (second visit under-flows the scope stack)", "C02l": "RefResolver.resolve strips trailing '/' from the joined URL (pointers whose last token is empty designate the parent)",
+"C03l": "find_additional_properties compiles all patternProperties into one alternation (inline global flags / duplicate group names raise re.error)", "C04l": "iter_errors pushes the id scope inside the try whose finally pops (a push that raises empties the stack)",
+"C05l": "iter_errors drops an error whose (keyword, message, path) equals one already reported in the same call", "C06l": "RefResolver.__init__ files the referrer with store.setdefault (a same-named entry wins; '#' lands in the other document)",
+"C07l": "RefResolver keeps at most 256 retrieved documents and evicts the root schema first", "C08l": "iter_errors converts a top-level Decimal instance to float",
+"C09l": "float-divisor multipleOf accepts quotients within one ulp of an integer", "C10l": "validate() passes an explicit cls only as the default of validator_for",
+"C11l": "is_number tests numbers.Real (Decimal-valued numeric keywords fail check_schema)", "C12l": "is_ipv4 guard widened to (str, int): integers reach the address parser",
+"C13l": "is_date parses the regex groups, anchored with ^...$ (a trailing line feed is accepted)", "C14l": "resolve_fragment narrows its except to LookupError (non-index tokens on arrays / tokens on strings raise TypeError)",
+"C15l": "resolve_remote calls self._remote_cache.cache_clear() when overwriting a stored entry (caller-supplied plain functions have no cache_clear)", "C16l": "siblings of $ref are skipped only when the class's keyword table has a truthy $ref entry",
+"C17l": "_Error.absolute_path reverses the parent's deque in place (reading a child's absolute_path moves the parent's path)", "C18l": "types_msg lifts the interpreter's int->str digit limit (sys.set_int_max_str_digits(0)) and never restores it",
+"C19l": "blank stdin is taken for 'no instance given' (exit 0, no diagnostic)", "C20l": "CLI exit status is the verdict of the LAST loadable instance (= instead of |=)",
 }
 MISSED = set("C03 C07 C12 C15 C16 C20 C02b C06b C07b C10b C11b C14b C19b C01c C02c C06c C10c C12c C15c C16c C18c C19c C20c "
              "C02d C04d C05d C07d C09d C13d C15d C16d C18d C19d C20d "
@@ -139,7 +149,8 @@ MISSED = set("C03 C07 C12 C15 C16 C20 C02b C06b C07b C10b C11b C14b C19b C01c C0
              "C01h C02h C03h C04h C05h C06h C09h C12h C14h C18h C19h C20h "
              "C04i C06i C10i C15i C16i C17i C18i C19i C20i "
              "C02j C04j C05j C06j C07j C08j C10j C13j C15j C19j "
-             "C02k C04k C08k C10k C11k C12k C14k C17k C18k C19k C20k".split())
+             "C02k C04k C08k C10k C11k C12k C14k C17k C18k C19k C20k "
+             "C01l C04l C06l C07l C08l C10l C11l C16l C17l C18l C19l C20l".split())
 rows = []
 for name in sorted(os.listdir(os.path.join(HERE, "seeded"))):
     mp = os.path.join(HERE, "seeded", name, "meta.json")
